@@ -150,6 +150,42 @@ def fallback_and_handover(prog, res):
     res.need(R, 4)
 
 
+def tentative_table_rollback(prog, res):
+    """T3: a Huffman table built in place in the NEXT entropy state must be rolled back to the
+    previous one on every exit that does not transmit it (else a later block may `repeat` a
+    table the decoder never received)."""
+    R = "T3.tentative-table-rollback"
+
+    def restores(f):
+        out = []
+        for b, i, c in f.calls(("memcpy", "__builtin_memcpy")):
+            a0, a1 = strip_casts(c["a"][0]), strip_casts(c["a"][1])
+            if a0.get("rk") == "p" and a1.get("rk") == "p" and "next" in f.params[a0["pi"]]["n"].lower() and "prev" in f.params[a1["pi"]]["n"].lower():
+                out.append((b, i))
+        return out
+    f = prog.fn("ZSTD_buildBlockEntropyStats_literals")
+    build = f.call_roots("HUF_buildCTable_wksp")
+    commit = f.find_roots(lambda x: x.get("k") == "asg" and strip_casts(x["lhs"]).get("f") == "hType" and strip_casts(x["rhs"]).get("n") == "set_compressed")
+    rs = restores(f)
+    succ = [n for n in guards.success_nodes(f) if n in f.flow([(b, i + 1) for b, i in build])]
+    ok = len(build) == 1 and bool(commit) and len(rs) >= 3 and bool(succ) and \
+        f.must_pass(via_roots=rs + commit, starts=[(b, i + 1) for b, i in build], targets=succ)
+    res.check(ok, R, "ZSTD_buildBlockEntropyStats_literals", f.loc,
+              "after the candidate table is built in nextHuf, every successful exit either transmits it (set_compressed) or restores prevHuf",
+              "an exit that does not transmit the new Huffman table leaves it in the next entropy state (a following block can then "
+              "repeat a table the decoder does not have)")
+    g = prog.fn("ZSTD_compressLiterals")
+    huf = [(b, i) for b, i, c in g.calls() if c.get("c") is None and any("f:CTable" in g.anchors(a) for a in c["a"])] or \
+        g.call_roots(("HUF_compress1X_repeat", "HUF_compress4X_repeat"))
+    fb = g.call_roots(("ZSTD_noCompressLiterals", "ZSTD_compressRleLiteralsBlock"))
+    fb = [n for n in fb if n in g.flow([(b, i + 1) for b, i in huf])]
+    rs = restores(g)
+    ok = bool(huf) and len(fb) == 2 and len(rs) >= 3 and g.must_pass(via_roots=rs, starts=[(b, i + 1) for b, i in huf], targets=fb)
+    res.check(ok, R, "ZSTD_compressLiterals", g.loc, "both fallbacks (raw / RLE literals) restore prevHuf after the Huffman attempt",
+              "a literals fallback keeps the tentative Huffman table in the next entropy state")
+    res.need(R, 2)
+
+
 def run(tier):
     res = Result("C01", tier)
     tus, info = extract(["compress", "decompress", "common"])
@@ -159,6 +195,7 @@ def run(tier):
     dispatch_tables(prog, res)
     family_coherence(prog, res)
     fallback_and_handover(prog, res)
+    tentative_table_rollback(prog, res)
     t4_common.run(prog, res, "T4.error-discipline", ["lib/compress/"], 220)
     return res.finish(
         explanation="Encoder symbol maps (LL_Code/ML_Code and their highbit+delta forms) are checked value by value "
